@@ -84,6 +84,36 @@ def h_unknown_runs(env):
     env.check("stable", bytes(m2) == out)
 
 
+def h_relay(env):
+    """a delimited stream of newer messages relayed by an older-schema reader/writer (load + dump with SIZE_DELIMITED), then read with the newer schema"""
+    import betterproto
+
+    from .c10 import OLDER, _messages, stream_catalogue
+
+    cat = stream_catalogue()
+    mod = shapes.build_bp(cat)
+    types = env.params["types"]
+    vals, msgs = _messages(env, cat, mod, types, False)
+    src = betterproto.BytesIO()
+    for m in msgs:
+        m.dump(src, betterproto.SIZE_DELIMITED)
+    rd = betterproto.BytesIO(src.getvalue())
+    out = betterproto.BytesIO()
+    for t in types:
+        o = getattr(mod, OLDER[t])().load(rd, betterproto.SIZE_DELIMITED)
+        o.dump(out, betterproto.SIZE_DELIMITED)
+    env.check("relay-consumed-everything", len(rd.read()) == 0)
+    env.observe("relayed", out.getvalue())
+    back = betterproto.BytesIO(out.getvalue())
+    for i, t in enumerate(types):
+        n = getattr(mod, t)().load(back, betterproto.SIZE_DELIMITED)
+        env.check("relayed-message-unchanged", n == msgs[i], "message %d" % i)
+    # the same with an explicit size instead of the delimiter
+    data = bytes(msgs[0])
+    o = getattr(mod, OLDER[types[0]])().load(betterproto.BytesIO(data + b"\x08\x01"), len(data))
+    env.check("explicit-size-load-stops-at-size", getattr(mod, types[0])().parse(bytes(o)) == msgs[0])
+
+
 def units(tier):
     u = []
     s2 = ["mixed", "oneofs", "nested", "optionals", "packed", "mapmsg", "repmsg", "wrappers"]
@@ -105,6 +135,8 @@ def units(tier):
         u.append(("unknown-runs[s2 %s x2]" % name, h_unknown_runs, {"cat": ["s2", name], "n": 2}))
     for kind, label in (("int32", "singular"), ("string", "repeated"), ("message", "oneof"), ("sint64", "repeated")):
         u.append(("unknown-runs[s1 %s %s x2]" % (kind, label), h_unknown_runs, {"cat": ["s1", kind, label], "n": 2}))
+    for types in (["A", "B"], ["B", "A"], ["A", "A"], ["B", "Empty"]):
+        u.append(("relay[%s]" % ",".join(types), h_relay, {"types": types}))
     return u
 
 
